@@ -41,14 +41,15 @@ var (
 
 type skip struct{}
 
+type exhausted struct{}
+
 func pop(label, kind string) int64 {
 	mu.Lock()
 	defer mu.Unlock()
 	if pos >= len(rf.ND) {
-		if desync == "" {
-			desync = fmt.Sprintf("replay exhausted at %s/%s", kind, label)
-		}
-		return 0
+		// the recorded path ended here (the engine stops a path at a failed
+		// assertion); stop the native run at the same point
+		panic(exhausted{})
 	}
 	r := rf.ND[pos]
 	pos++
@@ -211,6 +212,10 @@ func RunReplay(t T, harnesses map[string]func()) {
 			if r := recover(); r != nil {
 				if _, ok := r.(skip); ok {
 					fmt.Println("REPLAY-SKIP: assumption false")
+					return
+				}
+				if _, ok := r.(exhausted); ok {
+					fmt.Println("REPLAY-END: recorded values exhausted")
 					return
 				}
 				st := string(debug.Stack())
